@@ -2169,11 +2169,11 @@ impl SubRule {
 
             let mut m = true;
             while *state_index < states.len() {
+                // input_match_item advances the state index itself when the element matches
                 if !self.input_match_item(captures, pos, state_index, word, states)? {
                     m = false;
                     break;
                 }
-                *state_index += 1;
             }
             if m {
                 return Ok(true)
